@@ -83,6 +83,27 @@ pub fn gen_case(tier: Tier, master: u64, i: u64) -> Case {
         return c;
     }
     let mut rng = Rng::new(mix(master, tag("e2"), i));
+    if rng.chance(1, 8) {
+        // an identity-relocating reader over a reader that fails: same results as the model
+        // while nothing fails, and a failed operation consumes nothing
+        let mut c = Case::new("e2", "relocfault");
+        c.set("be", rng.bool() as i64);
+        let n = 1 + rng.usize(48);
+        let mut buf = rng.bytes(n);
+        for b in buf.iter_mut() {
+            if rng.chance(1, 5) {
+                *b = 0;
+            }
+        }
+        c.put("buf", buf);
+        for _ in 0..8 + rng.usize(40) {
+            let op = *rng.pick(&[0i64, 2, 4, 6, 11, 23, 23, 24, 24, 24, 25, 27, 28, 29, 35]);
+            c.steps.push(vec![op, rng.below(8) as i64, rng.below(n as u64 + 3) as i64, rng.below(256) as i64]);
+        }
+        c.fault = vec![if rng.bool() { 1 } else { 2 }, rng.below(60) as i64, rng.chance(1, 3) as i64];
+        c.note = "relocfault".into();
+        return c;
+    }
     if rng.chance(3, 5) {
         let mut c = Case::new("e2", "lockstep");
         c.set("be", rng.bool() as i64);
@@ -479,6 +500,110 @@ fn run_lockstep(case: &Case, ctx: &mut Ctx<'_>) {
     ctx.end();
 }
 
+/// RelocateReader<FaultReader<EndianSlice>, Identity> against the cursor model under injected
+/// failures of the wrapped reader: results equal the model's while nothing fails; an operation
+/// that fails (injected Io / Eof, or a genuine out-of-range argument) leaves the view where it
+/// was, as it does for every other reader kind.
+fn run_relocfault(case: &Case, ctx: &mut Ctx<'_>) {
+    use crate::fault::FaultReader;
+    type RF<'a> = RelocateReader<FaultReader<EndianSlice<'a, RunTimeEndian>>, Identity>;
+    let bytes = case.sec("buf");
+    let endian = endian_of(case);
+    let base = bytes.as_ptr() as usize;
+    let root: RF = RelocateReader::new(FaultReader::new(EndianSlice::new(bytes, endian), ctx.sim.clone()), Identity);
+    let mut hs: Vec<(RF, ModelReader)> = vec![(root, ModelReader::new(bytes, endian))];
+    ctx.item();
+    let view = |r: &RF| -> (usize, usize) { (r.inner().inner.slice().as_ptr() as usize - base, r.len()) };
+    for (si, op) in case.steps.iter().enumerate() {
+        let hi = (op[1] as usize) % hs.len();
+        let (a, b) = (op[2] as usize, op[3] as u64);
+        ctx.enter("reader.op");
+        let fired0 = ctx.sim.fired.get();
+        let before = view(&hs[hi].0);
+        let (r, m) = {
+            let h = &mut hs[hi];
+            (&mut h.0, &mut h.1)
+        };
+        let mut m2 = m.clone();
+        let mut new: Option<(RF, ModelReader)> = None;
+        // (real outcome, model outcome) as strings; a new handle when the operation makes one
+        let (o_r, o_m): (String, String) = match op[0] {
+            0 => (res(r.read_u8()), res(m2.read_u8())),
+            2 => (res(r.read_u16()), res(m2.read_u16())),
+            4 => (res(r.read_u32()), res(m2.read_u32())),
+            6 => (res(r.read_u64()), res(m2.read_u64())),
+            11 => (res(r.read_uint(1 + a % 8)), res(m2.read_uint(1 + a % 8))),
+            23 => (res(r.skip(a)), res(m2.skip(a))),
+            24 => match (r.split(a), m2.split(a)) {
+                (Ok(x), Ok(y)) => {
+                    new = Some((x, y));
+                    ("Ok(split)".into(), "Ok(split)".into())
+                }
+                (x, y) => (res(x.map(|_| ())), res(y.map(|_| ()))),
+            },
+            25 => (res(r.truncate(a)), res(m2.truncate(a))),
+            27 => (res(r.find(b as u8)), res(m2.find(b as u8))),
+            28 => match (r.read_null_terminated_slice(), m2.read_null_terminated_slice()) {
+                (Ok(x), Ok(y)) => {
+                    new = Some((x, y));
+                    ("Ok(cstr)".into(), "Ok(cstr)".into())
+                }
+                (x, y) => (res(x.map(|_| ())), res(y.map(|_| ()))),
+            },
+            29 => {
+                let mut b1 = vec![0u8; a % 20];
+                let mut b2 = b1.clone();
+                let (x, y) = (r.read_slice(&mut b1), m2.read_slice(&mut b2));
+                (format!("{} {}", res(x), crate::case::hex(&b1)), format!("{} {}", res(y), crate::case::hex(&b2)))
+            }
+            _ => {
+                new = Some((r.clone(), m2.clone()));
+                ("cloned".into(), "cloned".into())
+            }
+        };
+        let injected = ctx.sim.fired.get() != fired0;
+        let after = view(&hs[hi].0);
+        ev!(ctx, "step {} op={} h={} -> {} (model {}) injected={}", si, op[0], hi, o_r, o_m, injected);
+        if injected || o_r.starts_with("Err") {
+            // a failed operation consumes nothing; the model is not advanced either
+            if o_r.starts_with("Err") && after != before && op[0] == 28 {
+                // read_null_terminated_slice is find + split + skip for every reader kind: when
+                // the wrapped reader fails between those steps the bytes already taken are gone
+                // for any of them. Follow the reader.
+                let h = &mut hs[hi];
+                h.1.start = after.0;
+                h.1.len = after.1;
+                continue;
+            }
+            if o_r.starts_with("Err") && after != before {
+                ctx.violate(
+                    "c10_result",
+                    format!("step {} op {}: the operation failed (`{}`) but the identity-relocating view moved from {:?} to {:?}", si, op[0], o_r, before, after),
+                );
+                return;
+            }
+            if o_r.starts_with("Err") {
+                continue;
+            }
+            // an injected failure that the operation absorbed cannot happen for these operations
+        }
+        if o_r != o_m {
+            ctx.violate("c10_result", format!("step {} op {}: `{}` but the cursor model says `{}`", si, op[0], o_r, o_m));
+            return;
+        }
+        hs[hi].1 = m2;
+        if let Some(n) = new {
+            hs.push(n);
+        }
+        let (st, ln) = view(&hs[hi].0);
+        if (st, ln) != (hs[hi].1.start, hs[hi].1.len) {
+            ctx.violate("c10_view", format!("after step {}: view {:?} but the model is at ({}, {})", si, (st, ln), hs[hi].1.start, hs[hi].1.len));
+            return;
+        }
+    }
+    ctx.end();
+}
+
 fn run_parse(case: &Case, ctx: &mut Ctx<'_>) {
     let fam = E1_FAMILIES[(case.steps[0][0] as usize) % E1_FAMILIES.len()];
     let mut sub = case.clone();
@@ -512,6 +637,7 @@ fn run_parse(case: &Case, ctx: &mut Ctx<'_>) {
 pub fn run(case: &Case, ctx: &mut Ctx<'_>) {
     match case.family.as_str() {
         "lockstep" => run_lockstep(case, ctx),
+        "relocfault" => run_relocfault(case, ctx),
         "parse" => run_parse(case, ctx),
         other => panic!("e2 family {}", other),
     }
